@@ -91,14 +91,100 @@ SEARCH_RULE = ("search cases = (position with its game history: 40 seed FENs + p
                "in-process and is compared line by line with the executable Lean search model (info lines, bestmove, every cache insert with node counter / flag / ply, "
                "node count, seldepth, poll count, cache size and checksum) and with the property's own oracle; distinct_nontrivial = distinct case descriptors, counted by the driver")
 
+SP_Q = S("search-plain", "plain", 48, 3, extra=["--repeat", 2])
+SO_Q = dict(S("search-off", "off", 48, 3), driver="search:6")
+SB_Q = S("search-budget", "budget", 24, 2, extra=["--step", 1, "--maxcases", 120])
+SS_Q = S("search-stop", "stop", 24, 2, extra=["--step", 3, "--maxcases", 120])
+SK_Q = S("search-keep", "keep", 48, 3)
+SP_T = S("search-plain", "plain", 400, 4, extra=["--repeat", 2])
+SO_T = dict(S("search-off", "off", 480, 4), driver="search:12")
+SB_T = S("search-budget", "budget", 160, 3, extra=["--step", 1, "--maxcases", 1500])
+SS_T = S("search-stop", "stop", 160, 3, extra=["--step", 1, "--maxcases", 1500])
+SK_T = S("search-keep", "keep", 400, 4)
+
 PROPS["C14"] = {
     "module": "RCE.Props.C14",
     "theorems": ["RCE.Props.C14.info_depths", "RCE.Props.C14.depth_limit_complete", "RCE.Props.C14.pv_legal"],
-    "streams": {"quick": [S("search-plain", "plain", 48, 3), S("search-budget", "budget", 16, 2, extra=["--step", 5])],
-                "thorough": [S("search-plain", "plain", 400, 4), S("search-budget", "budget", 64, 3, extra=["--step", 11]), S("search-keep", "keep", 200, 4)]},
+    "streams": {"quick": [SP_Q, S("search-budget", "budget", 16, 2, extra=["--step", 7, "--maxcases", 40])],
+                "thorough": [SP_T, S("search-budget", "budget", 64, 3, extra=["--step", 11, "--maxcases", 300]), SK_T]},
     "eval_key": "cases", "distinct_key": "distinct_cases",
     "rule": SEARCH_RULE + "; for C14: every info line is checked against the UCI token grammar, depths must be 1,2,3,... in order, every PV is replayed move by move "
             "on the rules spec, and an unlimited depth-N search must report all N depths",
     "assumptions": ["pv_legal assumes KeyMoves (positions with equal 64-bit keys generate the same moves) and that the initial cache holds generated moves",
                     "time / nps tokens are clock dependent: checked for syntax on the real binary's output, not modelled"],
+}
+
+PROPS["C13"] = {
+    "module": "RCE.Props.C13",
+    "theorems": ["RCE.Props.C13.writes_only_complete", "RCE.Props.C13.no_nodes_after_abort", "RCE.Props.C13.abortCheck_interrupts"],
+    "streams": {"quick": [SB_Q, SS_Q], "thorough": [SB_T, SS_T, SK_T]},
+    "eval_key": "cases", "distinct_key": "distinct_cases",
+    "exhaustive": {"quick": False, "thorough": False},
+    "rule": SEARCH_RULE + "; for C13: for each position the full search is sized first, then re-run under EVERY node budget 1..N+1 (or every k-th when N exceeds the case cap) and with a stop "
+            "landing at every k-th poll of the running flag; the observer hook reports each cache insert with (nodes, budget, running flag): an insert with the flag cleared or nodes >= budget "
+            "is a violation; the insert sequence must equal the model's",
+    "assumptions": ["the clock is monotone (Instant); the ply cap of 255 is not an interruption"],
+}
+
+PROPS["C11"] = {
+    "module": "RCE.Props.C11",
+    "theorems": ["RCE.Props.C11.ab_eq_negamax"],
+    "streams": {"quick": [SO_Q], "thorough": [SO_T]},
+    "eval_key": "cases", "distinct_key": "distinct_cases",
+    "rule": SEARCH_RULE + "; for C11: cache neutralised by the hook, no limits; the root score read from info.best_score and the value of the chosen move are compared with a reference "
+            "minimax (textbook fail-soft alpha-beta, no ordering heuristics beyond a static capture sort, no cache, no null windows) over the model's game, and for small depths with the "
+            "same reference over the independent rules spec (own evaluation, own repetition record)",
+    "assumptions": ["EvalBoundedFrom: evaluations in the tree are within +-32511 (true for any position with realistic material)"],
+}
+
+PROPS["C16"] = {
+    "module": "RCE.Props.C16",
+    "theorems": ["RCE.Props.C16.search_clock_indep"],
+    "streams": {"quick": [S("search-plain", "plain", 48, 3, extra=["--repeat", 3])], "thorough": [S("search-plain", "plain", 400, 4, extra=["--repeat", 3])]},
+    "eval_key": "cases", "distinct_key": "distinct_cases",
+    "rule": SEARCH_RULE + "; for C16: every case is run three times in one process from a fresh cache and all outputs (info lines, bestmove, every cache insert, counters, cache checksum) "
+            "must be identical to each other and to the model's single prediction; the process-level part runs the real binary in separate processes, under 16-way CPU load, and the bench subcommand twice",
+    "assumptions": [],
+}
+
+PROPS["C09"] = {
+    "module": "RCE.Props.C09",
+    "theorems": ["RCE.Props.C09.one_legal_bestmove", "RCE.Props.C09.ply_restored"],
+    "streams": {"quick": [SP_Q, SB_Q, SS_Q], "thorough": [SP_T, SB_T, SS_T]},
+    "eval_key": "cases", "distinct_key": "distinct_cases",
+    "rule": SEARCH_RULE + "; for C09: exactly one bestmove line per search, the move must be legal in the rules spec's position, no panic of the search, under every node budget and stop point "
+            "(incl. budgets 1 and 2 where the first iteration is interrupted and the fallback move is used); the process-level part drives the real binary with limit mixes "
+            "(depth, nodes, movetime 0/1/50, wtime/btime/winc/binc incl. 0) and consecutive go commands and checks count, legality and latency of bestmove and readyok afterwards",
+    "assumptions": ["wall-clock latency is measured on the real binary only (PARTIAL for the timing clause: the model cannot exhibit how long a node takes)"],
+}
+
+PROPS["C07"] = {
+    "module": "RCE.Props.C07",
+    "theorems": ["RCE.Props.C07.fen_roundtrip", "RCE.Props.C07.fen_roundtrip4", "RCE.Props.C07.fromFen_wf", "RCE.Props.C07.start_fen"],
+    "streams": {"quick": [FEN_Q, WALK_Q], "thorough": [FEN_T, WALK_T]},
+    "rule": "generated FEN family: positions met on random walks from 40 seeds rendered with every castling-letter order, half-move clocks 0..150, move numbers 1..6000, "
+            "4-field and 6-field forms, extra blanks; each string is loaded by Board::from_fen and the full state (and the legal moves, keys, evaluation of the loaded position and of a few "
+            "moves played from it) is compared with the Lean reader model and with the independent spec parse; the walk stream additionally continues games from FEN reloads. " + WALK_RULE,
+    "assumptions": ["invalid FEN is outside the property (the reader panics on it)"],
+}
+
+PROPS["C01"] = {
+    "module": "RCE.Props.C01",
+    "theorems": ["RCE.Props.C01.attacked_exact", "RCE.Props.C01.inCheck_exact", "RCE.Props.C01.pseudo_exact",
+                 "RCE.Props.C01.legal_exact", "RCE.Props.C01.mate_stalemate_exact", "RCE.Props.C01.make_keeps"],
+    "streams": {"quick": [WALK_Q], "thorough": [WALK_T]},
+    "tier_b_kinds": ["pseudo-legal-order", "legal-list"],
+    "rule": WALK_RULE + "; for C01 the sorted legal-move set (from/to/promotion) and both in-check answers and both attacked-square sets of every explored position are compared with the rules spec "
+            "(Tier A) and the generation-order lists with the model (Tier B)",
+    "assumptions": [],
+}
+
+PROPS["C03"] = {
+    "module": "RCE.Props.C03",
+    "theorems": ["RCE.Props.C03.make_refines", "RCE.Props.C03.make_legal", "RCE.Props.C03.game_refines",
+                 "RCE.Props.C03.repetition_record", "RCE.Props.C03.start_legal"],
+    "streams": {"quick": [WALK_Q], "thorough": [WALK_T]},
+    "rule": WALK_RULE + "; for C03 after every move of every game the implementation's placement (x64), side to move, four rights, en-passant file, half-move clock, full-move number "
+            "are compared with the rules state machine, its FEN with the spec's rendering, and its repetition record with the multiset of keys of the earlier positions on the path",
+    "assumptions": ["u16 wrap of the two counters is outside the model (Nat); a legal game cannot reach 65535"],
 }
